@@ -1,6 +1,7 @@
 package main
 
 import (
+	"errors"
 	"strings"
 	"bytes"
 	"go/types"
@@ -35,9 +36,20 @@ func (in *Interp) yamlNodeType() types.Type {
 
 // drainReaderValues reads the interpreted reader to its end; symbolic reports whether some byte is no constant.
 func (in *Interp) drainReaderValues(r Value, caller *frame, site ssa.Instruction) (vals []Value, symbolic bool) {
+	vals, symbolic, _ = in.drainReaderValuesErr(r, caller, site)
+	return
+}
+
+// failAfter is a reader that has nothing but an error to give: what the interpreted reader reported after its data.
+type failAfter struct{ msg string }
+
+func (f failAfter) Read(_ []byte) (int, error) { return 0, errors.New(f.msg) }
+
+// drainReaderValuesErr also reports the text of the error that ended the input when it is not io.EOF.
+func (in *Interp) drainReaderValuesErr(r Value, caller *frame, site ssa.Instruction) (vals []Value, symbolic bool, readErr string) {
 	ri := r.(Iface)
 	if ri.t == nil {
-		return nil, false
+		return nil, false, ""
 	}
 	m := in.hasMethod(ri.t, "Read")
 	if m == nil {
@@ -55,13 +67,20 @@ func (in *Interp) drainReaderValues(r Value, caller *frame, site ssa.Instruction
 			vals = append(vals, v)
 		}
 		if e, ok := res[1].(Iface); ok && e.t != nil {
+			if !in.errorsIs(e, in.ioEOF()) {
+				if txt, ok := in.errorText(e).(string); ok {
+					readErr = txt
+				} else {
+					readErr = "read error"
+				}
+			}
 			break
 		}
 		if n == 0 {
 			break
 		}
 	}
-	return vals, symbolic
+	return vals, symbolic, readErr
 }
 
 // symbolicYamlDecode drives yaml.v3's own scanner, parser and node builder (gopkg.in/yaml.v3 decode.go, parserc.go,
@@ -285,15 +304,23 @@ func init() {
 			unsup("yaml.Decoder.Decode into %v (only *yaml.Node is modelled)", typeStr(target.t))
 		}
 		if st.dec == nil && st.symParser == nil {
-			vals, symbolic := in.drainReaderValues(st.reader, c, s)
+			vals, symbolic, readErr := in.drainReaderValuesErr(st.reader, c, s)
 			if symbolic {
+				if readErr != "" {
+					unsup("symbolic YAML text from a reader that fails")
+				}
 				return in.symbolicYamlDecode(st, vals, target.v.(Pointer), c, s), true
 			}
 			data := make([]byte, len(vals))
 			for i, v := range vals {
 				data[i] = byte(v.(Int).v)
 			}
-			st.dec = yaml.NewDecoder(bytes.NewReader(data))
+			if readErr != "" {
+				// the library sees the data and then the reader's error (it reports "yaml: input error: ...")
+				st.dec = yaml.NewDecoder(io.MultiReader(bytes.NewReader(data), failAfter{readErr}))
+			} else {
+				st.dec = yaml.NewDecoder(bytes.NewReader(data))
+			}
 		}
 		if st.symParser != nil {
 			return in.symbolicYamlDecode(st, nil, target.v.(Pointer), c, s), true
